@@ -151,6 +151,15 @@ def malformed_cases(rng, n):
                 line = ' '.join(t)
         if line:
             out.append(line)
+    # garbage-then-xref-stream: the start of an object that never ends, glued in front of the xref-stream object,
+    # with startxref pointing at the garbage: rejected (the second attempt restarts at the offset: commit 193f714)
+    for _ in range(max(8, n // 4)):
+        h = doc(rng, nobj=(3, 8), kinds=('stream',))
+        h[0].opts['junk_before_xstm'] = rng.choice([b'1 0 obj 7 ', b'1 0 obj 7\n', b'88 0 obj <</A 1>> ', b'1 0 obj [1 2] % c\n',
+                                                    b'5 0 obj (x)\n', b'2 0 obj\n'])
+        line = L.one_case(rng, h, L.gen_garbage(rng) if rng.random() < 0.3 else b'', 'other')
+        if line:
+            out.append(line)
     # hybrid sections whose /XRefStm is wrong; type-2 entries that name something that is not an object stream
     for _ in range(n // 2):
         seed = rng.getrandbits(48)
